@@ -509,9 +509,8 @@ static bool exec_op(const vj::val &op)
     }
     else if (e == "ov_derived")
     { // a variable whose values are controlled by the literals of another one (what a field access through an object
-      // variable creates): value vals[i] is taken exactly when the base variable takes its i-th value
-        if (!n.sat.root_level())
-            return false;
+      // variable creates): value vals[i] is taken exactly when the base variable takes its i-th value. It needs no new
+      // literal and no clause: it may be created at any decision level
         const var base = (var)op["base"].i();
         size_t bi = 0;
         while (bi < n.ov_vars.size() && n.ov_vars[bi] != base)
@@ -1080,6 +1079,22 @@ struct gen
                 else
                     create();
                 continue;
+            }
+            if (use("ov") && !root && coin(6))
+            { // a field reached through an object variable while some of its values are excluded by the standing decisions
+                std::vector<size_t> cands;
+                for (size_t i = 0; i < n.ov_vars.size(); ++i)
+                    if (!n.ov_free.count(n.ov_vars[i]) && n.ov_doms[i].size() >= 2)
+                        cands.push_back(i);
+                if (!cands.empty() && n.ov_vars.size() < 6)
+                {
+                    const size_t bi = cands[rnd((int)cands.size())];
+                    std::vector<long> pool = {0, 1, 2, 3};
+                    std::shuffle(pool.begin(), pool.end(), rng);
+                    std::vector<long> vals(pool.begin(), pool.begin() + n.ov_doms[bi].size());
+                    run("{\"e\":\"ov_derived\",\"base\":" + std::to_string(n.ov_vars[bi]) + ",\"vals\":" + jl(vals) + "}");
+                    continue;
+                }
             }
             if (w < 45 && !lits.empty())
             {
